@@ -180,7 +180,12 @@ func hashesEqual(a, b [][]byte) bool {
 // f5Region: the old-size line is "old <digits><junk>" that Sscanf partly understands.
 var f5RE = regexp.MustCompile(`^old [0-9]+[^0-9\n]`)
 
-func runBodyCase(c *BodyCase, st *vlib.Stats) (bool, []string, error) {
+func runBodyCase(c *BodyCase, st *vlib.Stats) (nt bool, classes []string, err error) {
+	defer func() {
+		if p := recover(); p != nil {
+			nt, classes, err = true, []string{"panic"}, fmt.Errorf("PANIC while parsing a body (kind %s, %d hashes): %v", c.Kind, len(c.Hashes), p)
+		}
+	}()
 	var body []byte
 	switch c.Kind {
 	case "roundtrip":
@@ -417,7 +422,12 @@ type ProofCase struct {
 	Text   *string  `json:"text,omitempty"` // if set: unmarshal/marshal direction
 }
 
-func runProofCase(c *ProofCase, st *vlib.Stats) (bool, []string, error) {
+func runProofCase(c *ProofCase, st *vlib.Stats) (nt bool, classes []string, err error) {
+	defer func() {
+		if p := recover(); p != nil {
+			nt, classes, err = true, []string{"panic"}, fmt.Errorf("PANIC in Proof.Marshal/Unmarshal: %v", p)
+		}
+	}()
 	if c.Text == nil {
 		if len(c.Hashes) == 0 && vlib.IsKnown("F6") {
 			st.Exclude("F6")
@@ -435,7 +445,7 @@ func runProofCase(c *ProofCase, st *vlib.Stats) (bool, []string, error) {
 		return true, []string{fmt.Sprintf("marshal-unmarshal:n=%d", min(len(c.Hashes), 3))}, nil
 	}
 	var q witness.Proof
-	err := q.Unmarshal([]byte(*c.Text))
+	err = q.Unmarshal([]byte(*c.Text))
 	if err != nil {
 		if len(q) != 0 {
 			return false, []string{"unmarshal-rejects"}, fmt.Errorf("Unmarshal(%q) failed but left %d hashes behind", trunc([]byte(*c.Text)), len(q))
